@@ -433,6 +433,42 @@ static long pgen_L5 (PgenCb cb, void *user)
       count++;
     }
   }
+  /* L5d: the result of every integer opcode accumulated (oa t1, ...; accX a1, t1): what a rule leaves in the parts of a
+   * register that are not part of its result (narrowing and widening rules, two-destination rules) meets the
+   * horizontal sum; with the source element width 1, 2, 4 and 8 the accumulated part of the register is a quarter, a
+   * half or all of it */
+  {
+    int oi;
+    for (oi = 0; oi < v_nops; oi++) {
+      const OrcStaticOpcode *oa = &v_ops[oi];
+      VProg p;
+      int a1, s0, t1, t1b = -1, a2 = -1;
+      const char *acc;
+      if (!pg_chainable (oa, PG_INT) || op_is_float (oa)) continue;
+      acc = oa->dest_size[0] == 2 ? "accw" : oa->dest_size[0] == 4 ? "accl" : oa->dest_size[0] == 1 ? "accsadubl" : NULL;
+      if (!acc) continue;
+      memset (&p, 0, sizeof (p));
+      a1 = vprog_addvar (&p, VK_A, oa->dest_size[0] == 1 ? 4 : oa->dest_size[0]);
+      s0 = vprog_addvar (&p, VK_S, oa->src_size[0]);
+      t1 = vprog_addvar (&p, VK_T, oa->dest_size[0]);
+      if (oa->dest_size[1]) t1b = vprog_addvar (&p, VK_T, oa->dest_size[1]);
+      pg_chain_insn (&p, oa, t1, t1b, s0, 0, 1);
+      if (oa->dest_size[0] == 1) {
+        int s9 = vprog_addvar (&p, VK_S, 1);
+        vprog_addinsn (&p, acc, 0, 3, a1, t1, s9, -1);
+      } else vprog_addinsn (&p, acc, 0, 2, a1, t1, -1, -1);
+      if (t1b >= 0 && (oa->dest_size[1] == 2 || oa->dest_size[1] == 4)) {
+        a2 = vprog_addvar (&p, VK_A, oa->dest_size[1]);
+        vprog_addinsn (&p, oa->dest_size[1] == 2 ? "accw" : "accl", 0, 2, a2, t1b, -1, -1);
+      } else if (t1b >= 0) {
+        int d3 = vprog_addvar (&p, VK_D, oa->dest_size[1]);
+        vprog_addinsn (&p, oa->dest_size[1] == 1 ? "copyb" : "copyq", 0, 2, d3, t1b, -1, -1);
+      }
+      pg_name (&p, "L5d", count);
+      cb (&p, user);
+      count++;
+    }
+  }
   return count;
 }
 
